@@ -91,7 +91,7 @@ fn run_family(plan: &Plan, lib: &dyn Lib, rec: &mut Rec) {
     let osig = refimpl::layout::tagged(scheme, &id_sig);
     let mut c = Courier::new(plan.seed, 2);
     // everything below reaches the verifier through the transport: the substitution is made by the sending peer
-    let mut deliver = |c: &mut Courier, parts: Vec<Vec<u8>>| -> Vec<Vec<u8>> { c.ship(0, 1, K_BYZ, 0, parts).into_iter().next().map(|a| a.parts).unwrap_or_default() };
+    let deliver = |c: &mut Courier, parts: Vec<Vec<u8>>| -> Vec<Vec<u8>> { c.ship(0, 1, K_BYZ, 0, parts).into_iter().next().map(|a| a.parts).unwrap_or_default() };
 
     // --- signatures
     let p = deliver(&mut c, vec![osig.clone(), id_pk.clone(), msg.clone()]);
